@@ -32,6 +32,8 @@ class ToDirectionCosines(Model):
         cosa = x / vabs
         cosb = y / vabs
         cosc = 1. / vabs
+        # z only lends its shape: the outputs get the common shape of the three inputs
+        cosa, cosb, cosc, vabs, _ = np.broadcast_arrays(cosa, cosb, cosc, vabs, z, subok=True)
         return cosa, cosb, cosc, vabs
 
     def inverse(self):
